@@ -454,6 +454,17 @@ func CheckRead(cs Case) (r Result) {
 	if got == want {
 		return Result{Outcome: core.Hash64(got)}
 	}
+	// Freedoms the sentence leaves open (a blank or nothing for the other spacing attributes, mosaic colour
+	// codes being colour codes or not): the reader may follow either reading, consistently.
+	for mask := 1; mask < 4 && x.Free != 0; mask++ {
+		if mask&^x.Free != 0 {
+			continue
+		}
+		ax := tt.Expect(cs.Stream, cs.Opts, tt.Variant{Blank: mask&tt.FreeBlank != 0, MosaicColour: mask&tt.FreeMosaicColour != 0})
+		if ax.Unsettled == "" && got == den(ax) {
+			return Result{Outcome: core.Hash64(got)}
+		}
+	}
 	// Known defect shapes are recognised by re-running the reference machine under the one deviant
 	// reading that describes the defect; anything else is the generic mismatch.
 	key := "tt.read.mismatch"
@@ -624,6 +635,9 @@ func run(c *core.Ctx) {
 	// (0) page selection among several subtitle pages on air (page numbers 00, shared numbers across magazines, auto-detection)
 	pageSelRun(c)
 
+	// (0b) value domains of every field: deviation ball around one realistic delivery, and the full products
+	valueRun(c)
+
 	// (1) every word up to the length bound x transmission mode, plain multiplexing
 	var word []string
 	var serial bool
@@ -685,7 +699,11 @@ func run(c *core.Ctx) {
 	}
 
 	// (3) row text tables
-	for _, rc := range rowCases(thorough) {
+	rcs := rowCases(thorough)
+	if c.Shard == 0 {
+		c.Extra["row_texts"] = int64(len(rcs))
+	}
+	for _, rc := range rcs {
 		if !c.Mine() {
 			continue
 		}
@@ -741,12 +759,19 @@ func rowCases(thorough bool) (out []Case) {
 			out = append(out, Case{Sub: "rows", Note: fmt.Sprintf("g0 %#x.. subset %d", base, nat), Stream: rowStream(nat, cells, nil)})
 		}
 	}
-	// (b) every string of <= 3 colour/size/box codes between the letters A B C D, with and without an
-	// enclosing box; box codes are sent twice as the standard requires
+	// (b) every string of <= 3 spacing attributes between the letters A B C D (layout "spread": A c1 B c2 C c3 D)
+	// and next to each other (layout "adjacent": AB c1 c2 c3 CD), with and without an enclosing box; box codes
+	// are sent twice as the standard requires. Quick: strings of <= 2 over all 32 codes 0x00..0x1F and of 3 over
+	// the colour/size/box codes; thorough: strings of <= 3 over all 32 codes.
 	codes := []byte{0, 1, 2, 3, 4, 5, 6, 7, 0x0a, 0x0b, 0x0c, 0x0d, 0x0e, 0x0f}
-	var seqs [][]byte
-	seqs = append(seqs, nil)
-	for n := 1; n <= 3; n++ {
+	var all32 []byte
+	for c := byte(0); c < 0x20; c++ {
+		all32 = append(all32, c)
+	}
+	exactly := func(codes []byte, n int) (seqs [][]byte) {
+		if n == 0 {
+			return [][]byte{nil}
+		}
 		idx := make([]int, n)
 		for {
 			s := make([]byte, n)
@@ -767,26 +792,56 @@ func rowCases(thorough bool) (out []Case) {
 				break
 			}
 		}
+		return
+	}
+	var seqs [][]byte
+	for n := 0; n <= 2; n++ {
+		seqs = append(seqs, exactly(all32, n)...)
+	}
+	if thorough {
+		seqs = append(seqs, exactly(all32, 3)...)
+	} else {
+		seqs = append(seqs, exactly(codes, 3)...)
 	}
 	for _, sq := range seqs {
-		for _, enclosed := range []bool{true, false} {
-			var cells []byte
-			if enclosed {
-				cells = append(cells, 0x0b, 0x0b)
+		for _, layout := range []string{"spread", "adjacent"} {
+			if layout == "adjacent" && len(sq) < 2 {
+				continue // same cells as "spread" up to the letters
 			}
-			for i := 0; i < 4; i++ {
-				cells = append(cells, byte('A'+i))
-				if i < len(sq) {
-					cells = append(cells, sq[i])
-					if sq[i] == 0x0a || sq[i] == 0x0b {
-						cells = append(cells, sq[i])
+			for _, enclosed := range []bool{true, false} {
+				var cells []byte
+				if enclosed {
+					cells = append(cells, 0x0b, 0x0b)
+				}
+				code := func(c byte) {
+					cells = append(cells, c)
+					if c == 0x0a || c == 0x0b {
+						cells = append(cells, c)
 					}
 				}
+				if layout == "spread" {
+					for i := 0; i < 4; i++ {
+						cells = append(cells, byte('A'+i))
+						if i < len(sq) {
+							code(sq[i])
+						}
+					}
+				} else {
+					cells = append(cells, 'A', 'B')
+					for _, c := range sq {
+						code(c)
+					}
+					cells = append(cells, 'C', 'D')
+				}
+				if enclosed {
+					cells = append(cells, 0x0a, 0x0a)
+				}
+				note := fmt.Sprintf("codes % x enclosed=%v", sq, enclosed)
+				if layout != "spread" {
+					note += " " + layout
+				}
+				out = append(out, Case{Sub: "rows", Note: note, Stream: rowStream(tt.English, cells, nil)})
 			}
-			if enclosed {
-				cells = append(cells, 0x0a, 0x0a)
-			}
-			out = append(out, Case{Sub: "rows", Note: fmt.Sprintf("codes % x enclosed=%v", sq, enclosed), Stream: rowStream(tt.English, cells, nil)})
 		}
 	}
 	// (c) one parity failure at every cell of a boxed, coloured row
@@ -852,17 +907,18 @@ func replay(sub string, raw json.RawMessage) (string, bool) {
 func init() {
 	core.Register(&core.Prop{
 		ID: "C06", Level: "exploration",
-		Rule: "a case = (packet-sequence word, transmission mode, multiplexing variant, reader options): every word over a 26-letter alphabet of data units (selected-page headers under three national sub-sets, headers of another page / the same number in another magazine / another magazine / time-filling / hexadecimal page, rows 1 20 22 24 of the selected magazine and a row of another magazine, X/26, X/28 (well coded and zero bytes), M/29, 8/30, non-subtitle unit, stuffing, two truncated units, PES boundary (+1 s), non-EBU PES, payload-less PES, stray byte) up to the length bound, in serial and parallel mode, each read with page given/auto x PID given/auto; plus eight multiplexing variants over shorter words, the row-text tables (every G0 position under 7 national sub-sets, every string of <=3 colour/size/box codes, a parity failure at every cell), every truncation 0..43 of six packet kinds, and 72 read-after-read pairs (the same stream read after two different streams must denote the same); ReadFromTeletext under recover() must return what the reference page machine (engine/ref/teletext.Expect) derives from the model; non-trivial = non-empty word or table entry, distinct by (word, mode, variant, options)",
+		Rule: "a case = (packet-sequence word, transmission mode, multiplexing variant, reader options): every word over a 26-letter alphabet of data units (selected-page headers under three national sub-sets, headers of another page / the same number in another magazine / another magazine / time-filling / hexadecimal page, rows 1 20 22 24 of the selected magazine and a row of another magazine, X/26, X/28 (well coded and zero bytes), M/29, 8/30, non-subtitle unit, stuffing, two truncated units, PES boundary (+1 s), non-EBU PES, payload-less PES, stray byte) up to the length bound, in serial and parallel mode, each read with page given/auto x PID given/auto; plus eight multiplexing variants over shorter words, the row-text tables (every G0 position under 7 national sub-sets, every string of spacing attributes 0x00..0x1F spread between / adjacent inside the letters ABCD with and without enclosing box, a parity failure at every cell), every truncation 0..43 of six packet kinds, and 72 read-after-read pairs (the same stream read after two different streams must denote the same); plus VALUE DOMAINS (values.go): one realistic delivery (lead-in PES, instance 1 with two rows, distractor page, instance 2, erase page, trailer) whose every field is an E1 site with a boundary-complete table - magazine 1..8, page tens/units {0,1,2,5,8,9}, sub-code {0,1,S1..S4 maxima,3F7F}, C4 C5 C6 C7-C9 C10 C11 each on/off, national option 0..6, row numbers {1,2,3,9,10,11,19..24}, 23 cell patterns (box never closed / text before box / two boxes / blanks only / box filling all 40 columns / character in column 39 / every colour / every size / flash steady backgrounds mosaics conceal ESC hold release / 0x20 0x7E 0x7F), first presentation time {10 s, 0, 9 ticks, across 2^32, up to 2^33-1} and gaps {0, 0.1 ms, 1 ms, s, 1 h, 10 h, 13 h, 26 h}, erase page or end of stream, data_identifier / data_unit_id / field-parity+line-offset byte / framing code (tables in the ball, all 256 values in a product) on the header's or a row's unit, Hamming 8/4 errors (single bit: corrected, two bits in an address / page number byte: packet rejected), PID {0x20,0x21,0x100,0xFFF,0x1001,0x1FFE}, descriptor 0x56 / 0x46 / none, 5 descriptor item lists (types 1..5, languages, several items, none), other descriptors before/after (0x52 0x0A 0x59 0x45 0x80, second teletext descriptor), 7 PMT layouts (look-alike PIDs with no / DVB-subtitling / VBI-data descriptor first, second teletext PID higher / lower / first), 7 distractor placements incl. pages with hexadecimal digits, X/26 X/27 X/28 M/29 8/30 X/31 with designation codes 0..15, page option {the page, 0, other page, <100, >=900, other magazine}, PID option {given, 0, absent, second}, PES alignment, table repetition, a non-private_stream_1 PES: every case within 2 (quick) / 3 (thorough) deviations of the baseline, and full products pages (all 800 page numbers) / hexpages / rowpairs (all ordered pairs of rows 1..25, all 24 rows in 3 orders) / hdrbits (all 2^7 control bit combinations) / texts / times / unitbytes / pmt / opts / ham / enh; ReadFromTeletext under recover() must return what the reference page machine (engine/ref/teletext.Expect) derives from the model (for the two freedoms of the sentence - a blank or nothing for spacing attributes other than colour/size/box, mosaic colour codes counting as colour codes or not - either reading, consistently); non-trivial = non-empty word or table entry, distinct by (word, mode, variant, options) / by value assignment",
 		Scope: map[core.Tier]string{
-			core.Quick:    "all words of length <= 3 over 26 letters and all words of length 4 over 16 letters, x {serial, parallel} x 4 reader option sets; 8 mux variants x words of length <= 2 over 26 letters; 5 971 row texts; 528 truncations; 72 read-after-read pairs",
-			core.Thorough: "all words of length <= 4 over 26 letters and all words of length 5 over 14 letters, x {serial, parallel} x 4 reader option sets; 8 mux variants x words of length <= 3; row texts and truncations as quick",
+			core.Quick:    "all words of length <= 3 over 26 letters and all words of length 4 over 16 letters, x {serial, parallel} x 4 reader option sets; 8 mux variants x words of length <= 2 over 26 letters; 15 173 row texts (attribute strings of <= 2 over all 32 codes, of 3 over the 14 colour/size/box codes); 528 truncations; 72 read-after-read pairs; value domains: 20 417 cases within 2 deviations over 40 sites, products pages 14 400, hexpages 3 072, rowpairs 2 524, hdrbits 7 168, texts 1 587, times 4 272 (336 beyond the 33-bit counter skipped), unitbytes 2 048, pmt 8 232, opts 4 704, ham 864, enh 1 536",
+			core.Thorough: "all words of length <= 4 over 26 letters and all words of length 5 over 14 letters, x {serial, parallel} x 4 reader option sets; 8 mux variants x words of length <= 3; 135 269 row texts (attribute strings of <= 3 over all 32 codes); truncations as quick; value domains: 1 280 002 cases within 3 deviations, products as quick",
 		},
 		Assumptions: []string{
 			"Go toolchain and standard library", "astits muxer for the 188-byte packet / PAT / PMT layer; panics whose innermost frame is inside astits are the demuxer's own and excluded",
 			"independent reference encoder and page machine engine/ref/teletext",
-			"not decided by the property sentence, executed for the crash oracle only: rows of the selected magazine after (serial mode) a header of another magazine with the selected page number or after a time-filling header; packet X/25; lone (undoubled) box codes; two different enlarged sizes without normal size in between; instances whose rows carry no boxed text; timing when the PES carry no PTS (PCR variant: text compared, times not)",
+			"not decided by the property sentence, executed for the crash oracle only: rows of the selected magazine after (serial mode) a header of another magazine with the selected page number or after a time-filling header; packet X/25; lone (undoubled) box codes; two different enlarged sizes without normal size in between; instances whose rows carry no boxed text; timing when the PES carry no PTS (PCR variant: text compared, times not); C10 (inhibit display) set on the selected page; text after a conceal code, mosaic characters (columns 2 3 6 7 after a mosaic colour code); two wrong bits in a Hamming 8/4 byte other than address / page number",
+			"not generated (outside the sentence or the library's documented model): presentation times that are not whole nanoseconds (ticks not divisible by 9), PTS wrap-around and a first PES that is not the earliest, PES without PTS among PES with PTS, national option 111 and G0 sets reachable only through X/28 / M/29 designation (known finding), subtitle-flagged pages with hexadecimal digits, page option < 0 or >= 1000, PID option outside 0..0x1FFF, stream_type other than 0x06, Hamming 24/18 errors",
 			"look-alike glyphs are unified before comparison (arrows/guillemets/circumflex, long dash/hyphen, double/broken bar, block/U+007F); spaces next to a colour/size code are not generated",
-			"all headers of a stream carry the same C11; presentation times are whole milliseconds and non-decreasing; PES of other PIDs have times inside the teletext PID's range",
+			"all headers of a stream carry the same C11; presentation times are whole multiples of 0.1 ms (9 ticks) and non-decreasing; PES of other PIDs have times inside the teletext PID's range",
 		},
 		Plain: run, Replay: replay,
 		MinOutcomes: 10,
